@@ -43,7 +43,7 @@ func opWsRecover() error {
 	}
 	defer in.Close()
 	hmax := int(envInt("VERIF_HISTORY_MAX", 2))
-	wait := 10 * time.Second
+	wait := 60 * time.Second // slow is not stuck; after the first wait that expires the later ones are short
 	res := Result{DevUsed: map[string]int{}, Stats: map[string]int{}}
 	var out []Mismatch
 	t0 := time.Now()
@@ -183,6 +183,7 @@ func opWsRecover() error {
 			}
 			time.Sleep(time.Millisecond)
 			if got := snapshot(); !same(got, ev.Recv) {
+				wait = 3 * time.Second
 				miss(k, fmt.Sprintf("after %s the subscriber has received %v (history %d)", ev.Ev, ev.Recv, hmax), fmt.Sprint(got))
 				break
 			}
